@@ -55,12 +55,19 @@ with open(V + "/seeded/README.md", "w") as f:
             "(or, without touching /repo, `tools/try_seeded.sh <scratch worktree> seeded/<id>/patch.diff <Cxx>`).\n\n")
     f.write("| id | property | caught by quick check | result | first failing harness | needs |\n|---|---|---|---|---|---|\n")
     for r in rows:
-        f.write("| %s | %s | %s | %s | %s | %s |\n" % (r[0], r[1], "yes" if r[2] else "NO", r[3], r[4], r[5]))
+        f.write("| %s | %s | %s | %s | %s | %s |\n" % (r[0], r[1], "yes" if r[2] else ("inconclusive (exit 2)" if "INCONCLUSIVE" in str(r[3]) else "NO"), r[3], r[4], r[5]))
     f.write("\nHistory: C13-A (a static cache of the last detected language) passed every check when it was first tried,\n"
             "because each harness made a single call from a fresh library; the history prefix (an arbitrary earlier call of\n"
             "the same operation, DESIGN.md section 4) was added because of it, and C13 now includes p6_auto. C09-A needed a\n"
             "count-boundary cell that the quick tier did not have yet (17 tokens with a doubled separator after the 16th);\n"
-            "it was added before that trial ran. Everything else was caught by the checks as they stood.\n"
+            "it was added before that trial ran. Everything else in round 1 was caught by the checks as they stood.\n"
+            "Rounds 2 and 3 (ids with R2/R3): the table shows the result of the final run of each change. Changes that were missed\n"
+            "when first tried, and what was done: C09-R2C (token texts made symbolic in p6_auto), C13-R2B (history call gets its own\n"
+            "dependency answers), C16-R2A (wipe-after-last-use ordering), C17-R2Cx (normalised strings of any length in p5; p5 added\n"
+            "to C17), C02-R2A and C05-R3G1A (language detection p6_auto added to the C02 and C05 checks: the harness caught them, the\n"
+            "property's instance list did not include it), C04-R3G2C (k4_birthday added to C04: k9_create alone times out on the\n"
+            "64-bit division). C03-R3G1B changes the signature of the static write_str, which the encoder harness replaces by a stub:\n"
+            "the harness no longer links and the check answers inconclusive (exit 2) -- not a detection, not a silent pass either.\n"
             "\nBehaviour-preserving refactorings (12 patches from three further sub-agents, `seeded/benign/`) are the opposite test:\n"
             "every relevant quick check must stay quiet on them (results in `seeded/benign/README.md`).\n")
 print("%d seeded, %d caught" % (len(rows), sum(1 for r in rows if r[2])))
